@@ -26,6 +26,17 @@ SCHEMA = f'''<xs:schema {XS}>
   <xs:unique name="UU"><xs:selector xpath="u"/><xs:field xpath="."/></xs:unique><xs:key name="K"><xs:selector xpath="item|item/sub|gitem|gitem/sub"/><xs:field xpath="@k"/></xs:key>
  </xs:element>
  <xs:element name="gitem" type="B"/></xs:schema>'''
+# XSD 1.1 only: a key on one element and a REFERENCE to it (xs:key ref=) on another; the selector reaches declarations that exist only in a derived type used through xsi:type
+SCHEMA11_EXTRA = '''<xs:complexType name="Slot"><xs:sequence><xs:element name="n" type="xs:string" minOccurs="0"/></xs:sequence></xs:complexType>
+ <xs:complexType name="SlotX"><xs:complexContent><xs:extension base="Slot"><xs:sequence><xs:element name="code" type="xs:string" maxOccurs="unbounded"/></xs:sequence></xs:extension></xs:complexContent></xs:complexType>
+ <xs:element name="north"><xs:complexType><xs:sequence><xs:element name="nslot" type="Slot" maxOccurs="unbounded"/></xs:sequence></xs:complexType><xs:key name="codeKey"><xs:selector xpath=".//code"/><xs:field xpath="."/></xs:key></xs:element>
+ <xs:element name="south"><xs:complexType><xs:sequence><xs:element name="sslot" type="Slot" maxOccurs="unbounded"/></xs:sequence></xs:complexType><xs:key ref="codeKey"/></xs:element>'''
+
+
+def schema_text(ver):
+    return SCHEMA.replace('<xs:element name="gitem" type="B"/></xs:schema>', '<xs:element name="gitem" type="B"/>' + SCHEMA11_EXTRA + '</xs:schema>') if ver == '1.1' else SCHEMA
+
+
 DOCS = [
     f'<r {XSI}><item k="1"><a>x</a></item><item k="2"><a>y</a></item></r>',
     f'<r {XSI}><item k="1"><a>x</a></item><item k="1"><a>y</a></item></r>',
@@ -49,6 +60,8 @@ DOCS = [
     # an xsi:type met AFTER the on-demand load of a namespace in the same run (the load rebuilds the components the run is using)
     f'<r {XSI} xmlns:xlink="http://www.w3.org/1999/xlink"><item k="1"><a>x</a></item><sa xlink:type="simple"/><bitem k="3" xsi:type="B"><a>x</a></bitem></r>',
     # a union with lexically overlapping members: which member decodes a value must not depend on what was decoded before
+    f'<north {XSI}><nslot xsi:type="SlotX"><code>A</code></nslot></north>', f'<south {XSI}><sslot xsi:type="SlotX"><code>A</code><code>A</code></sslot></south>',
+    f'<south {XSI}><sslot xsi:type="SlotX"><code>A</code></sslot></south>', f'<north {XSI}><nslot xsi:type="SlotX"><code>A</code><code>A</code></nslot></north>',
     f'<r {XSI}><item k="1"><a>x</a></item><u>alpha</u><u>n/a</u></r>', f'<r {XSI}><item k="1"><a>x</a></item><u>1</u><u>01</u></r>', f'<r {XSI}><item k="1"><a>x</a></item><u>7</u></r>',
 ]
 MIDRUN = [i for i, d in enumerate(DOCS) if 'bitem k="3" xsi:type="B"' in d][0]
@@ -84,9 +97,9 @@ def call(s, op, doc):
 
 def eval_history(args):
     ver, hist = args
-    s = _cls(ver)(SCHEMA); known = False
+    s = _cls(ver)(schema_text(ver)); known = False
     for step, (op, i) in enumerate(hist):
-        got = call(s, op, DOCS[i]); exp = call(_cls(ver)(SCHEMA), op, DOCS[i])
+        got = call(s, op, DOCS[i]); exp = call(_cls(ver)(schema_text(ver)), op, DOCS[i])
         if got != exp:
             if i == MIDRUN and 'cannot substitute' not in repr(got):         # the document dedicated to the listed finding, whatever the operation
                 known = True; continue        # the FRESH schema shows the spurious error (listed finding); a used one does not
